@@ -72,10 +72,10 @@ class RecObserver:
 
 class RxScn(Scenario):
     def __init__(self, api, kind, k=3, limit=MAXN, err=None, source='plain', dispose=False, up=0, flavour='tcp', empty=False,
-                 alts=('all',), modes=('Q',)):
+                 alts=('all',), modes=('Q',), ending='flag'):
         self.name = 'rx'
         self.params = dict(api=api, kind=kind, k=k, limit=limit, err=err, source=source, dispose=dispose, up=up, flavour=flavour,
-                           empty=empty, alts=list(alts), modes=list(modes))
+                           empty=empty, alts=list(alts), modes=list(modes), ending=ending)
         self.world_kw = {'alts': alts, 'modes': modes}
         self.__dict__.update(self.params)
 
@@ -116,10 +116,27 @@ class RxScn(Scenario):
 
         return bp.from_observable_with_backpressure(factory), good, terminal
 
+    def core_publisher(self, tag, n):
+        """A core-API source of n elements; ending 'flag' (last element carries COMPLETE), 'complete' (separate empty
+        completion) or 'error' (the generator raises after the elements)."""
+        from rsocket.streams.stream_from_generator import StreamFromGenerator
+        items = els(tag, n)
+        ending = self.ending
+
+        def gen():
+            for i, e in enumerate(items):
+                yield e, (ending == 'flag' and i == n - 1)
+            if ending == 'error':
+                raise RuntimeError('boom')
+
+        return StreamFromGenerator(gen), items, ('E' if ending == 'error' else 'C')
+
     def setup(self, w):
         L = libs(self.api)
         rx = L['rx']
         scn = self
+        if self.kind in ('stream-corehandler', 'channel-corehandler'):
+            return self.setup_corehandler(w, L)
         calls = w.objs['calls'] = []
         w.objs['expect'] = {}
 
@@ -165,6 +182,14 @@ class RxScn(Scenario):
                 from mc.app import RecSubscriber
                 sub = st['coresub'] = RecSubscriber(w, 'c0', 'coresub')
                 client.request_stream(P(b'req')).initial_request_n(2).subscribe(sub)
+                st['disp'] = None
+                return
+            if kind == 'channel-core':
+                from mc.app import RecSubscriber
+                sub = st['coresub'] = RecSubscriber(w, 'c0', 'coresub')
+                pub, items, term = self.core_publisher(b'u', self.up)
+                w.objs['expect']['up'] = (items, term)
+                client.request_channel(P(b'req'), pub).initial_request_n(MAXN).subscribe(sub)
                 st['disp'] = None
                 return
             if kind == 'stream':
@@ -217,6 +242,10 @@ class RxScn(Scenario):
                                 'core requester granted 2+3+2 credits and got %d of %d elements' % (len(got), len(want))))
             out += [(r, s_ + ' | ' + tag, d) for r, s_, d in monitors.credit(log, 's0', prop='C20')]
             return out
+        if self.kind == 'channel-core':
+            return out + self.check_channel_core(w, tag)
+        if self.kind in ('stream-corehandler', 'channel-corehandler'):
+            return out + self.check_corehandler(w, tag)
         sig = ''.join(s[0] for s in obs.signals)
         for i, ch in enumerate(sig):
             if ch in 'CE' and i != len(sig) - 1:
@@ -302,6 +331,143 @@ class RxScn(Scenario):
                 out.append(('C20.no-unhandled-exception', 'C20.no-unhandled-exception | %s | %s' % (tag, exc), '%s: %s' % (msg, txt)))
         return out
 
+    def check_channel_core(self, w, tag):
+        """Core-API requester (its publisher ends with a COMPLETE-flagged element / a separate completion / an error)
+        against the handler-side adapter with limit_rate = the request limit."""
+        out = []
+        log, st = w.log, w.objs['st']
+        tag = tag + '/up-' + self.ending
+        up = w.objs.get('upobs')
+        items, term = w.objs['expect'].get('up', ([], 'C'))
+        if up is not None:
+            gotu = [s[1] for s in up.signals if s[0] == 'N' and s[1] != (b'', b'')]
+            wantu = [pl(e) for e in items]
+            if gotu != wantu:
+                out.append(('C20.elements-preserved', 'C20.elements-preserved | %s | up | got=%d want=%d' % (tag, len(gotu), len(wantu)), 'handler observer got %s expected %s' % (gotu, wantu)))
+            tu = [s[0] for s in up.signals if s[0] in 'CE']
+            if tu != [term]:
+                out.append(('C20.terminal-preserved', 'C20.terminal-preserved | %s | up | %s-instead-of-%s' % (tag, ''.join(tu) or 'none', term),
+                            'handler observer signals %s, the requester ended its direction with %s' % ([s[0] for s in up.signals], term)))
+            sg = ''.join(s[0] for s in up.signals)
+            for i, ch in enumerate(sg):
+                if ch in 'CE' and i != len(sg) - 1:
+                    out.append(('C20.observer-grammar', 'C20.observer-grammar | %s | %s-then-%s' % (tag, ch, sg[i + 1]), 'handler observer signals %s' % sg))
+                    break
+        exp = w.objs['expect'].get('down')
+        sub = st['coresub']
+        if exp is not None:
+            got = [e for e in sub.elements() if e != (b'', b'')]
+            want = [pl(e) for e in exp[0]]
+            if got != want:
+                out.append(('C20.elements-preserved', 'C20.elements-preserved | %s | down | got=%d want=%d' % (tag, len(got), len(want)), 'core requester got %s expected %s' % (got, want)))
+        rns = [ev[2].request_n for ev in log if ev[0] == 'tx' and ev[1] == 's0' and ev[2].type == R.REQUEST_N]
+        if any(n != self.limit for n in rns):
+            out.append(('C20.request-limit', 'C20.request-limit | %s | request-n | responder' % tag, 'REQUEST_N values %s from the handler side, limit_rate %d' % (rns, self.limit)))
+        if self.limit < MAXN:
+            granted, got_n, worst = 0, 0, 0
+            for ev in log:
+                if ev[0] == 'tx' and ev[1] == 's0' and ev[2].type == R.REQUEST_N and ev[2].sid == 1:
+                    granted += ev[2].request_n
+                elif ev[0] == 'rx' and ev[1] == 's0' and ev[2].sid == 1 and ev[2].type == R.PAYLOAD and ev[2].next and not ev[2].follows:
+                    got_n += 1
+                worst = max(worst, granted - got_n)
+            if worst > self.limit:
+                out.append(('C20.request-limit', 'C20.request-limit | %s | outstanding-demand | responder' % tag, 'handler side had %d elements of demand outstanding with limit_rate %d' % (worst, self.limit)))
+        out += [(r, s_ + ' | ' + tag, d) for r, s_, d in monitors.credit(log, 's0', prop='C20')]
+        out += [(r, s_ + ' | ' + tag, d) for r, s_, d in monitors.credit(log, 'c0', prop='C20')]
+        for msg, exc, txt in w.loop.read_exc_log():
+            if exc not in (None, 'CancelledError'):
+                out.append(('C20.no-unhandled-exception', 'C20.no-unhandled-exception | %s | %s' % (tag, exc), '%s: %s' % (msg, txt)))
+        return out
+
+    def setup_corehandler(self, w, L):
+        """Rx client against a core-API handler whose publisher ends with a COMPLETE-flagged element / separate completion /
+        error."""
+        from mc.app import RecSubscriber
+        from rsocket.payload import Payload
+        rx = L['rx']
+        scn = self
+        w.objs['calls'] = [('on_setup', b'application/json', b'application/json', (b'sd', b'sm'))]
+        w.objs['expect'] = {}
+
+        def request_stream(h, p):
+            pub, items, term = scn.core_publisher(b'd', scn.k)
+            w.objs['expect']['down'] = (items, term)
+            return pub
+
+        def request_channel(h, p):
+            pub, items, term = scn.core_publisher(b'd', scn.k)
+            w.objs['expect']['down'] = (items, term)
+            sub = w.objs['rsub'] = RecSubscriber(w, 's0', 'rsub', request_on_subscribe=MAXN)
+            return pub, sub
+
+        conn, client, server = start_pair(w, self.flavour, s_beh={'request_stream': request_stream, 'request_channel': request_channel},
+                                          client_kw={'setup_payload': Payload(b'sd', b'sm')})
+        rc = L['Client'](client)
+        obs = w.objs['obs'] = RecObserver(w, 'c0', 'obs')
+        st = w.objs['st'] = {}
+
+        def start(w):
+            if self.kind == 'stream-corehandler':
+                o = rc.request_stream(P(b'req'), request_limit=self.limit)
+            else:
+                up = rx.from_iterable(els(b'u', self.up))
+                o = rc.request_channel(P(b'req'), request_limit=self.limit, observable=up)
+            st['disp'] = o.subscribe(obs)
+
+        w.add_actor('app', [Step('subscribe', start, guard=lambda w: any(ev[0] == 'rx' and ev[2].type == R.SETUP for ev in w.log))])
+
+    def check_corehandler(self, w, tag):
+        out = []
+        log, obs = w.log, w.objs['obs']
+        tag = tag + '/down-' + self.ending
+        sig = ''.join(s[0] for s in obs.signals)
+        for i, ch in enumerate(sig):
+            if ch in 'CE' and i != len(sig) - 1:
+                out.append(('C20.observer-grammar', 'C20.observer-grammar | %s | %s-then-%s' % (tag, ch, sig[i + 1]), 'observer signals %s' % sig))
+                break
+        exp = w.objs['expect'].get('down')
+        if exp is not None:
+            got = [s[1] for s in obs.signals if s[0] == 'N' and s[1] != (b'', b'')]
+            want = [pl(e) for e in exp[0]]
+            if got != want:
+                out.append(('C20.elements-preserved', 'C20.elements-preserved | %s | down | got=%d want=%d' % (tag, len(got), len(want)), 'observer got %s expected %s' % (got, want)))
+            term = [s[0] for s in obs.signals if s[0] in 'CE']
+            if term != [exp[1]]:
+                out.append(('C20.terminal-preserved', 'C20.terminal-preserved | %s | down | %s-instead-of-%s' % (tag, ''.join(term) or 'none', exp[1]),
+                            'observer signals %s, the handler publisher ended with %s' % (sig, exp[1])))
+        req = [ev[2] for ev in log if ev[0] == 'tx' and ev[1] == 'c0' and ev[2].type in (R.REQUEST_STREAM, R.REQUEST_CHANNEL)]
+        if req and req[0].request_n != self.limit:
+            out.append(('C20.request-limit', 'C20.request-limit | %s | initial' % tag, 'initial request-n %d, request limit %d' % (req[0].request_n, self.limit)))
+        rns = [ev[2].request_n for ev in log if ev[0] == 'tx' and ev[1] == 'c0' and ev[2].type == R.REQUEST_N]
+        if any(n != self.limit for n in rns):
+            out.append(('C20.request-limit', 'C20.request-limit | %s | request-n' % tag, 'REQUEST_N values %s, request limit %d' % (rns, self.limit)))
+        if self.limit < MAXN and req:
+            granted, got_n, worst = 0, 0, 0
+            for ev in log:
+                if ev[0] == 'tx' and ev[1] == 'c0' and ev[2].sid == req[0].sid and ev[2].type in (R.REQUEST_STREAM, R.REQUEST_CHANNEL, R.REQUEST_N):
+                    granted += ev[2].request_n
+                elif ev[0] == 'rx' and ev[1] == 'c0' and ev[2].sid == req[0].sid and ev[2].type == R.PAYLOAD and ev[2].next and not ev[2].follows:
+                    got_n += 1
+                worst = max(worst, granted - got_n)
+            if worst > self.limit:
+                out.append(('C20.request-limit', 'C20.request-limit | %s | outstanding-demand | requester' % tag, 'requester had %d elements of demand outstanding with request limit %d' % (worst, self.limit)))
+        if self.kind == 'channel-corehandler':
+            rsub = w.objs.get('rsub')
+            if rsub is not None:
+                gotu = [e for e in rsub.elements() if e != (b'', b'')]
+                wantu = [pl(e) for e in els(b'u', self.up)]
+                if gotu != wantu:
+                    out.append(('C20.elements-preserved', 'C20.elements-preserved | %s | up | got=%d want=%d' % (tag, len(gotu), len(wantu)), 'core handler subscriber got %s expected %s' % (gotu, wantu)))
+                t = rsub.terminal()
+                if t is None or t[0] == 'E':
+                    out.append(('C20.terminal-preserved', 'C20.terminal-preserved | %s | up | %s' % (tag, 'missing-complete' if t is None else 'error'), 'core handler subscriber signals %s' % [s[0] for s in rsub.signals]))
+        out += [(r, s_ + ' | ' + tag, d) for r, s_, d in monitors.credit(log, 's0', prop='C20')]
+        for msg, exc, txt in w.loop.read_exc_log():
+            if exc not in (None, 'CancelledError'):
+                out.append(('C20.no-unhandled-exception', 'C20.no-unhandled-exception | %s | %s' % (tag, exc), '%s: %s' % (msg, txt)))
+        return out
+
     def nontrivial(self, w):
         return self.dispose or self.err is not None or self.limit < max(self.k, 1)
 
@@ -333,6 +499,16 @@ def make_units(tier):
                 for err in (None, 1):
                     units.append(dict(api=api, kind='stream-core', k=k, limit=MAXN, err=err if (err is None or err <= k) else None, source=source, dispose=False, up=0,
                                       flavour='tcp', empty=False, bound=bound))
+        # one side on the core API: its sources end with a COMPLETE-flagged element, a separate completion or an error
+        for ending in ('flag', 'complete', 'error'):
+            for limit in (1, 2, 3, MAXN):
+                for n_el in (0, 1, 2, 3, 4) if tier == 'quick' else (0, 1, 2, 3, 4, 6):
+                    units.append(dict(api=api, kind='channel-core', k=2, limit=limit, err=None, source='plain', dispose=False, up=n_el, flavour='tcp',
+                                      empty=False, bound=1 if tier == 'quick' else 2, ending=ending))
+                    units.append(dict(api=api, kind='stream-corehandler', k=n_el, limit=limit, err=None, source='plain', dispose=False, up=0, flavour='tcp',
+                                      empty=False, bound=1 if tier == 'quick' else 2, ending=ending))
+                    units.append(dict(api=api, kind='channel-corehandler', k=n_el, limit=limit, err=None, source='plain', dispose=False, up=2, flavour='tcp',
+                                      empty=False, bound=1 if tier == 'quick' else 2, ending=ending))
         for kind, empty in (('rr', False), ('rr', True), ('fnf', False), ('push', False)):
             for flavour in ('tcp', 'msg'):
                 units.append(dict(api=api, kind=kind, k=0, limit=MAXN, err=None, source='plain', dispose=False, up=0, flavour=flavour, empty=empty, bound=bound))
@@ -341,7 +517,7 @@ def make_units(tier):
 
 def scenario_of(u):
     return RxScn(u['api'], u['kind'], u['k'], u['limit'], u['err'], u['source'], u['dispose'], u['up'], u['flavour'], u['empty'],
-                 alts=('all',), modes=('Q', '1') if u['dispose'] else (('Q', '0') if u['kind'] == 'stream-core' else ('Q',)))
+                 alts=('all',), modes=('Q', '1') if u['dispose'] else (('Q', '0') if u['kind'] == 'stream-core' else ('Q',)), ending=u.get('ending', 'flag'))
 
 
 def run_unit(unit, part):
@@ -350,7 +526,7 @@ def run_unit(unit, part):
 
 def scenario_from(name, p):
     return RxScn(p['api'], p['kind'], p['k'], p['limit'], p['err'], p['source'], p['dispose'], p['up'], p['flavour'], p['empty'],
-                 tuple(p['alts']), tuple(p['modes']))
+                 tuple(p['alts']), tuple(p['modes']), p.get('ending', 'flag'))
 
 
 def replay(rec):
